@@ -37,6 +37,8 @@ def scenarios(tier):
     # discrete tables whose rows are not in time order (e.g. ordered by location): each row still enters at the step of its own time
     out.append(dict(name="unsorted-disc-fwd", fn="run", params=dict(R=3, N=3, rev=False, cont=0, mmax=1, names=False, unsorted=True), cost=8))
     out.append(dict(name="unsorted-disc-rev", fn="run", params=dict(R=3, N=3, rev=True, cont=0, mmax=1, names=False, unsorted=True), cost=8))
+    out.append(dict(name="unsorted-cont-fwd", fn="run", params=dict(R=2, N=3, rev=False, cont=1, mmax=1, names=False, unsorted=True), cost=8))
+    out.append(dict(name="unsorted-cont-rev", fn="run", params=dict(R=2, N=3, rev=True, cont=1, mmax=1, names=False, unsorted=True), cost=8))
     out.append(dict(name="subtick-continuous", fn="subtick", params=dict(mode="continuous"), cost=3))
     out.append(dict(name="subtick-discrete", fn="subtick", params=dict(mode="discrete"), cost=3))
     out.append(dict(name="typed-disc", fn="run", params=dict(R=2, N=3, rev=False, cont=0, mmax=2, names=False, typed=True), cost=5))
@@ -73,7 +75,7 @@ def run(W, p):
     mc = [W.idx(x) for x in m]
     if cont:
         for i in range(R):
-            W.assume((mc[i] - mc[0]) % cont == 0, "file times on the frequency grid anchored at the first file time")
+            W.assume((mc[i] - min(mc)) % cont == 0, "file times on the frequency grid anchored at the first file time (first in simulation order)")
     mult = [W.idx(W.int(f"mult{i}", 0, p["mmax"])) for i in range(R)]
     xs = [W.real(f"x{i}") for i in range(R)]
     ys = [W.real(f"y{i}") for i in range(R)]
@@ -129,7 +131,7 @@ def run(W, p):
         upto_stop = [i for i in range(R) if 0 <= mc[i] <= N]
     else:
         filesteps = sorted(set(mc))
-        tick = mc[0]
+        tick = min(mc)  # the first file time in simulation order, wherever its row stands in the file
         upto_stop = []
         while tick < N:
             latest = max(s for s in filesteps if s <= tick)
